@@ -223,7 +223,29 @@ def run_check(pid, tier, seed, only_shards=None):
             retried.append((shard, res))
     results = retried
 
+    # A process that died (signal / abort) although its reports carry no violation is run once more
+    # with the same arguments and seed: a defect of the tree reproduces (the programs are
+    # deterministic up to thread scheduling), while a one-off death of the process is recorded in
+    # the evidence and the verdict is taken from the second run.
+    unreproduced = []
+    if spec.get("crash_is_violation"):
+        again = []
+        for shard, res in results:
+            if res["status"] == "crash" and not shard.get("finding") and not any(r.get("violations") for r in res["reports"]):
+                res2 = run_shard(shard)
+                res2["retried"] = True
+                if res2["status"] == "ok":
+                    unreproduced.append("process died once (rc=%s) and ran to completion when repeated: %s | %s" % (
+                        res["rc"], " ".join(str(a) for a in shard["args"]), res["tail"][-300:].replace("\n", " / ")))
+                    again.append((shard, res2))
+                    continue
+                again.append((shard, res2 if res2["status"] == "crash" else res))
+            else:
+                again.append((shard, res))
+        results = again
+
     merged = merge_reports(pid, results)
+    merged["notes"].extend(unreproduced)
     harness_problems = list(merged["inconclusive"])
     violations = list(merged["violations"])  # (shard, {sig, detail})
 
